@@ -18,6 +18,9 @@ pub enum Case {
     RoundTrip { els: Vec<El>, ws: u8, allow_collision: bool },
     /// every opcode name and numeric alias
     Names,
+    /// arbitrary text (fuzzer inputs): parse must be total; an accepted text whose script is minimally pushed
+    /// must survive render -> parse
+    Text { text: String },
     /// invalid token inside an otherwise valid text
     Invalid { before: Vec<El>, token: String, after: Vec<El> },
 }
@@ -166,6 +169,21 @@ impl Property for C17 {
         if f.check != "asm_roundtrip_bytes" {
             return None;
         }
+        if let Case::Text { text } = case {
+            let script = Script::from_asm_string(text).ok()?;
+            let s2 = Script::from_bytes(&script.to_bytes()).ok()?;
+            let els = bits_to_els(&s2.to_script_bits());
+            if !has_collision(&els) {
+                return None;
+            }
+            let mut n = 0;
+            let neutral = neutralise(&els_normal(&els), &mut n);
+            let mut o = Outcome::new();
+            if roundtrip(&neutral, 0, &mut o).is_ok() {
+                return Some("asm-digit-push");
+            }
+            return None;
+        }
         if let Case::RoundTrip { els, ws, .. } = case {
             if !has_collision(els) {
                 return None;
@@ -196,6 +214,27 @@ impl Property for C17 {
                     e
                 };
                 roundtrip(&els, *ws, &mut o)?;
+            }
+            Case::Text { text } => {
+                o.label("free-text");
+                if let Ok(script) = lib_call("from_asm_string", || Script::from_asm_string(text))? {
+                    let bytes = script.to_bytes();
+                    // only scripts that re-parse from bytes into a minimally-pushed element tree are in the domain
+                    if let Ok(toks) = tok::tokenize(&bytes) {
+                        let minimal = toks.iter().all(|t| match t {
+                            Tok::Push { opcode, data } => !data.is_empty() && *opcode == tok::minimal_push_opcode(data.len()),
+                            _ => true,
+                        });
+                        if minimal && tok::open_blocks_at_end(&toks) == 0 {
+                            if let Ok(s2) = Script::from_bytes(&bytes) {
+                                let els = bits_to_els(&s2.to_script_bits());
+                                if gs::depth(&els) <= 32 {
+                                    roundtrip(&els, 0, &mut o)?;
+                                }
+                            }
+                        }
+                    }
+                }
             }
             Case::Names => {
                 for b in 0u16..=255 {
